@@ -175,7 +175,7 @@ SPECS = {
             },
         }],
         'rule': ('one run = one ceremony: m-of-n (n<=4 quick, <=15 thorough) cosigners, 2-3 of them real wallets in separate '
-                 'databases created from independently permuted key lists, the rest external signers; then 8-24 events: ask parties for the key at an explicit path or for the next key of an explicit cosigner branch, fund, create a spend, sign (holder / external cosigner / foreign key), '
+                 'databases created from independently permuted key lists, the rest external signers; then 8-24 events: ask parties for the key at an explicit path, for the next key or for several keys at once of an explicit cosigner branch, fund, create a spend, sign (holder / external cosigner / foreign key), '
                  'hand a copy over as object / dict / raw hex through a channel that drops, duplicates and reorders, import, '
                  'send, tamper, reopen a party wallet from its database. After every event every touched copy is judged by the library (verify / verified / pushed) and '
                  'by the reference node against the real previous output. Non-trivial: >= 5 events and >= 1 successful library '
